@@ -139,15 +139,27 @@ func check(c *enum.Ctx, k kase) (nontrivial bool) {
 				origScores = fmt.Sprint(int(orig.At(3)), int(orig.At(4)))
 				return
 			}
-			q := linear.NewQSeq("q", []alphabet.QLetter{{L: 'a', Q: alphabet.Qphred(k.V)}, {L: 'c', Q: 7}}, alphabet.DNA, e2)
+			qls := []alphabet.QLetter{{L: 'a', Q: alphabet.Qphred(k.V)}, {L: 'c', Q: 7}}
+			q := linear.NewQSeq("q", qls, alphabet.DNA, e2)
+			if k.Via == "empty" {
+				// a record that is rendered while it still has no letters (nothing to encode), then filled
+				q = linear.NewQSeq("q", nil, alphabet.DNA, e2)
+				_ = fmt.Sprintf("%q", q)
+				q.AppendQLetters(qls...)
+			}
 			q.Offset = 3
-			_ = q.QEncode(3)
-			_ = fmt.Sprintf("%q", q)
+			if k.Via != "empty" {
+				_ = q.QEncode(3)
+				_ = fmt.Sprintf("%q", q)
+			}
 			orig := q
 			if k.Via == "clone" {
 				q = q.Clone().(*linear.QSeq)
 			}
 			q.SetEncoding(e)
+			if k.Via == "zero" {
+				_ = fmt.Sprintf("%.0q", q) // the header alone: no quality is encoded
+			}
 			enc, dec, pe, reported = q.QEncode(3), q.Encode.DecodeToQphred(byte(b)), q.EAt(3), q.Encoding()
 			line = fmt.Sprintf("%q", q)
 			if k.Via == "clone" {
@@ -159,7 +171,7 @@ func check(c *enum.Ctx, k kase) (nontrivial bool) {
 		}) {
 			return true
 		}
-		hist := fmt.Sprintf("built as %s, encoded, %sSetEncoding(%s)", encNames[e2], map[string]string{"": "", "clone": "copied, "}[k.Via], encNames[e])
+		hist := fmt.Sprintf("built as %s, encoded, %sSetEncoding(%s)", encNames[e2], map[string]string{"": "", "clone": "copied, ", "empty": "(rendered while empty, then filled) ", "zero": "(then rendered with %.0q) "}[k.Via], encNames[e])
 		if reported != e {
 			fail(k.Kind+"/Encoding", "%s: Encoding() = %s", hist, encNames[reported])
 		}
@@ -445,6 +457,9 @@ func enumerate(add func(kase)) {
 			for _, e2 := range append([]alphabet.Encoding{alphabet.Solexa}, phredEnc...) {
 				for _, via := range []string{"", "clone"} {
 					add(kase{Kind: "phred-container", Enc: int(e), Enc2: int(e2), Via: via, V: v})
+					add(kase{Kind: "qseq-container", Enc: int(e), Enc2: int(e2), Via: via, V: v})
+				}
+				for _, via := range []string{"empty", "zero"} {
 					add(kase{Kind: "qseq-container", Enc: int(e), Enc2: int(e2), Via: via, V: v})
 				}
 			}
